@@ -147,6 +147,9 @@ func pickOutcome(r *simkit.Rng, failBias float64) string {
 		if r.Chance(0.3) {
 			return "lost"
 		}
+		if r.Chance(0.25) {
+			return "errc"
+		}
 		return "err"
 	}
 	return "ok"
@@ -208,10 +211,14 @@ type world struct {
 	tr      *stateless.Tracker
 	cids    []cid.Cid
 	touched map[int]bool // cids that received an instruction or an initial state entry
-	mu      sync.Mutex
-	pending int              // client calls not yet returned
-	instrErr map[int]int     // cid index -> seq of the last instruction/recover error
-	want    func(string) bool // clause filter
+	// remoteQuiet[ci]: stamp of the last instruction for the CID if that was "it
+	// is remote now", issued while nothing was pending or parked and the daemon
+	// held the CID (0 otherwise): that instruction must have tried to unpin it
+	remoteQuiet map[int]int
+	mu          sync.Mutex
+	pending     int               // client calls not yet returned
+	instrErr    map[int]int       // cid index -> seq of the last instruction/recover error
+	want        func(string) bool // clause filter
 }
 
 func (w *world) violate(clause, sig, format string, a ...interface{}) {
@@ -276,7 +283,7 @@ func kindOf(w *world, p *api.Pin) string {
 
 func (H) Execute(t *testing.T, plan *simkit.Plan, run *simkit.Run) {
 	run.Begin()
-	w := &world{run: run, plan: plan, touched: map[int]bool{}, instrErr: map[int]int{}}
+	w := &world{run: run, plan: plan, touched: map[int]bool{}, instrErr: map[int]int{}, remoteQuiet: map[int]int{}}
 	prop := plan.Property
 	w.want = func(clause string) bool {
 		return prop == "ALL" || strings.HasPrefix(clause, prop+"/") || clause == "deadlock"
@@ -385,6 +392,16 @@ func (w *world) exec(s Step) {
 		}
 		w.st.set(p) // state first, then the instruction (what consensus does)
 		w.touched[ci] = true
+		w.remoteQuiet[ci] = 0
+		if kindOf(w, p) == "remote" {
+			synctest.Wait()
+			w.mu.Lock()
+			idle := w.pending == 0
+			w.mu.Unlock()
+			if idle && w.ipfs.Parked() == 0 && w.ipfs.Holds(p.Cid) != "" {
+				w.remoteQuiet[ci] = w.run.Stamp()
+			}
+		}
 		w.client(fmt.Sprintf("track cid%d %s %s", ci, kindOf(w, p), modeName(p)), func() error {
 			err := w.tr.Track(ctx, p)
 			if err != nil {
@@ -395,6 +412,7 @@ func (w *world) exec(s Step) {
 	case "untrack":
 		w.st.del(w.cids[ci])
 		w.touched[ci] = true
+		w.remoteQuiet[ci] = 0
 		w.client(fmt.Sprintf("untrack cid%d", ci), func() error {
 			err := w.tr.Untrack(ctx, w.cids[ci])
 			if err != nil {
@@ -645,6 +663,21 @@ func (w *world) checkQuiescent(tag string) {
 				if holds != "" && sc != "error" {
 					w.violate("C05/not_removed_without_error", fmt.Sprintf("have=%q status=%s", holds, sc),
 						"%s: cid%d was removed, daemon still holds it %q, yet Status is %s", tag, ci, holds, sp.Status)
+				}
+			case "remote":
+				// unpinned locally on a best-effort basis: a daemon failure is
+				// tolerated, making no attempt is not
+				if rq := w.remoteQuiet[ci]; rq > 0 && holds != "" {
+					tried := false
+					for _, c := range w.ipfs.Calls {
+						if c.Cid == w.cids[ci].String() && c.Seq > rq {
+							tried = true
+						}
+					}
+					w.run.Probe("remote_unpin_attempts_checked")
+					if !tried {
+						w.violate("C05/remote_not_unpinned", "no attempt", "%s: cid%d moved to other peers while nothing else was going on and the daemon held it (%q): no unpin was attempted at the daemon, and it is still pinned here (status %s)", tag, ci, holds, sp.Status)
+					}
 				}
 			case "meta":
 				if holds != "" {
